@@ -22,7 +22,11 @@ RULE = ("MafWriter.from_fd(handle that survives close, header, Silent, assume_so
         "extra column first or last and may leave it (or the last key column) empty, so that lines end in empty "
         "columns; for a share of the scheme-less cases the caller re-uses ONE MafRecord object, editing its values in "
         "place between writes (\"reuse\"), or edits the first record after handing it over (drops its last column / "
-        "adds a column: \"edit_first\"); non-trivial = sorting on, at least two records with distinct keys; "
+        "adds a column: \"edit_first\"); API-built headers come from MafHeader.from_defaults or from "
+        "MafHeader.from_reader(reader over a header-only text, ...), with the contig list passed as contigs=[...] or as "
+        "fasta_index=<a .fai file written for the case>, and the sort-order object itself may be built from a .fai; records are handed over with `+=` or "
+        "writer.write(); the destination is a caller's handle (from_fd) or, for a share, a plain or .gz path under the "
+        "check's work directory (from_path); writer.header() must be the header given; non-trivial = sorting on, at least two records with distinct keys; "
         "distinct by hash of the case")
 ASSUMPTIONS = [
     "iterating the MafSorter returns a permutation of the added records sorted by the key function it was built with, "
@@ -97,6 +101,8 @@ def _gen_one(rng):
                        "so_contigs": None}}
         if hdr["api"]["contigs"] is None and contigs and order in ("C", "B") and rng.random() < 0.7:
             hdr["api"]["so_contigs"] = contigs
+        hdr["api"]["via"] = rng.choice(["defaults", "defaults", "reader"])
+        hdr["api"]["fai"] = rng.random() < 0.4          # contig lists travel through a .fai file
         eff = hdr["api"]["contigs"] or hdr["api"]["so_contigs"] or None
         declared = [hdr["api"]["order"], eff]
     else:
@@ -134,7 +140,8 @@ def _gen_one(rng):
         if len(uniq) >= 4:
             rows, cap = uniq, rng.choice([1, 2, 2, 3])
     return {"stream": stream, "typed": typed, "sort": sort, "cap": cap, "hdr": hdr, "declared": declared,
-            "names": colnames, "rows": rows, "reuse": reuse, "edit_first": edit_first}
+            "names": colnames, "rows": rows, "reuse": reuse, "edit_first": edit_first,
+            "call": rng.choice(["iadd", "iadd", "write"]), "dest": rng.choice([None, None, None, None, "path", "gz"])}
 
 
 def generate(rng, n):
@@ -149,6 +156,26 @@ def _ucase(lines, declared, rows, sort=True, cap=None):
 
 def corpus():
     return [
+        # write() instead of +=, a path / a .gz path instead of a handle
+        dict(_ucase(["#sort.order Coordinate", "#contigs chr1,chr2,chr10"], ["Coordinate", ["chr1", "chr2", "chr10"]],
+                    [["chr10", "1", "2"], ["chr2", "1", "1"], ["chr1", "5", "6"]]), call="write", dest="gz"),
+        dict(_ucase(["#sort.order Coordinate"], ["Coordinate", None], [["chr1", "10", "10"], ["chr1", "9", "9"]], sort=False), call="write", dest="path"),
+        # header built from a .fai file (from_defaults / from_reader): the sorting writer obeys its contig order
+        {"stream": "corpus", "typed": False, "sort": True, "cap": None,
+         "hdr": {"api": {"version": None, "order": "Coordinate", "contigs": ["chr1", "chr2", "chr10"], "so_contigs": None,
+                         "via": "defaults", "fai": True}},
+         "declared": ["Coordinate", ["chr1", "chr2", "chr10"]], "names": [C.N_CHROM, C.N_START, C.N_END],
+         "rows": [{"kind": "untyped", "cols": [[C.N_CHROM, c], [C.N_START, s], [C.N_END, s]]} for c, s in (("chr10", "1"), ("chr2", "9"), ("chr1", "5"), ("chr2", "10"))]},
+        {"stream": "corpus", "typed": True, "sort": True, "cap": None,
+         "hdr": {"api": {"version": "gdc-1.0.0", "order": "BarcodesAndCoordinate", "contigs": ["X", "10", "2", "1"], "so_contigs": None,
+                         "via": "reader", "fai": True}},
+         "declared": ["BarcodesAndCoordinate", ["X", "10", "2", "1"]], "names": C.GDC_NAMES,
+         "rows": [{"kind": "typed", "f": dict(chrom=c, start=s, end=s)} for c, s in (("1", "5"), ("10", "7"), ("X", "10"), ("2", "9"))]},
+        {"stream": "corpus", "typed": False, "sort": True, "cap": None,
+         "hdr": {"api": {"version": None, "order": "Coordinate", "contigs": None, "so_contigs": ["chr10", "chr2", "chr1"],
+                         "via": "reader", "fai": True}},
+         "declared": ["Coordinate", ["chr10", "chr2", "chr1"]], "names": [C.N_CHROM, C.N_START, C.N_END],
+         "rows": [{"kind": "untyped", "cols": [[C.N_CHROM, c], [C.N_START, s], [C.N_END, s]]} for c, s in (("chr1", "1"), ("chr2", "9"), ("chr10", "5"))]},
         # pinned-tree defect (C10-writer-contigs): the sorter ignored the header's contigs
         _ucase(["#sort.order Coordinate", "#contigs chr1,chr2,chr10"], ["Coordinate", ["chr1", "chr2", "chr10"]],
                [["chr10", "1", "2"], ["chr2", "1", "1"], ["chr1", "5", "6"]]),
@@ -256,11 +283,37 @@ def _header(case):
     a = h["api"]
     cls = {"Coordinate": Coordinate, "BarcodesAndCoordinate": BarcodesAndCoordinate, "Unknown": Unknown,
            "Unsorted": Unsorted}.get(a["order"])
-    so = None
-    if cls is not None:
-        so = cls(contigs=list(a["so_contigs"])) if (a["so_contigs"] and cls in (Coordinate, BarcodesAndCoordinate)) else cls()
-    return MafHeader.from_defaults(version=a["version"], sort_order=so,
-                                   contigs=list(a["contigs"]) if a["contigs"] else None)
+    fai = bool(a.get("fai"))
+    paths = []
+    try:
+        so = None
+        if cls is not None:
+            if a["so_contigs"] and cls in (Coordinate, BarcodesAndCoordinate):
+                if fai:
+                    paths.append(C.write_fai(a["so_contigs"]))
+                    so = cls(fasta_index=paths[-1])
+                else:
+                    so = cls(contigs=list(a["so_contigs"]))
+            else:
+                so = cls()
+        kw = {}
+        if a["contigs"]:
+            if fai:
+                paths.append(C.write_fai(a["contigs"]))
+                kw["fasta_index"] = paths[-1]
+            else:
+                kw["contigs"] = list(a["contigs"])
+        if a.get("via") == "reader":
+            # a header derived from a reader's header (here: the version pragma at most)
+            from maflib.reader import MafReader
+
+            text = (["#version " + a["version"]] if a["version"] else []) + ["\t".join(case["names"])]
+            reader = MafReader(lines=iter(text), validation_stringency=ValidationStringency.Silent)
+            return MafHeader.from_reader(reader, sort_order=so, **kw)
+        return MafHeader.from_defaults(version=a["version"], sort_order=so, **kw)
+    finally:
+        for p in paths:
+            C.remove_file(p)
 
 
 def run_impl(case):
@@ -287,9 +340,22 @@ def run_impl(case):
     if case.get("cap"):
         # several spill runs with few records: lower the capacity the writer's sorter is built with
         mw.MafSorter = functools.partial(original_sorter, max_objects_in_ram=case["cap"])
+    path = None
+    header_kept = True
+    writer = rec = shared = None
     try:
         header = _header(case)
-        writer = MafWriter.from_fd(fd, header, validation_stringency=silent, assume_sorted=not case["sort"])
+        if case.get("dest"):
+            import os
+            import tempfile
+
+            os.makedirs("/verif/work", exist_ok=True)
+            tfd, path = tempfile.mkstemp(suffix=".maf.gz" if case["dest"] == "gz" else ".maf", dir="/verif/work")
+            os.close(tfd)
+            writer = MafWriter.from_path(path, header, validation_stringency=silent, assume_sorted=not case["sort"])
+        else:
+            writer = MafWriter.from_fd(fd, header, validation_stringency=silent, assume_sorted=not case["sort"])
+        header_kept = writer.header() is header
         scheme = find_scheme(version="gdc-1.0.0", annotation=None) if case["typed"] else None
         shared = None
         for i, d in enumerate(case["rows"]):
@@ -304,7 +370,10 @@ def run_impl(case):
                 rec = MafRecord.from_line(C.untyped_line(d["cols"]), column_names=[n for n, _ in d["cols"]],
                                           validation_stringency=silent)
                 shared = rec
-            writer += rec
+            if case.get("call") == "write":
+                writer.write(rec)
+            else:
+                writer += rec
             if i == 0 and case.get("edit_first") and not case["typed"]:
                 # the caller goes on editing the record it has handed over
                 if case["edit_first"] == "drop_last":
@@ -318,7 +387,23 @@ def run_impl(case):
         end = C.exc_code(e)
     finally:
         mw.MafSorter = original_sorter
+    if path is not None and end is not None:
+        # the writer was abandoned after an exception: dropping it lets python flush and close its own handle
+        import gc
+
+        writer = rec = shared = header = None
+        gc.collect()
     text = fd.getvalue()
+    if path is not None:
+        import gzip
+
+        try:
+            with (gzip.open(path, "rt") if case["dest"] == "gz" else open(path)) as f:
+                text = f.read()
+            fd.closed_by_writer = end is None        # a path's handle is the writer's own; a complete file was read back
+        except Exception as e:
+            end = end if end is not None else C.exc_code(e)
+        C.remove_file(path)
     lines = text.split("\n")
     trailing_ok = lines[-1] == ""
     lines = lines[:-1] if trailing_ok else lines
@@ -331,7 +416,8 @@ def run_impl(case):
         except Exception as e:
             rend = C.exc_code(e)
         reread = [n, rend]
-    return {"out": lines, "end": end, "closed": fd.closed_by_writer, "reread": reread, "nl": trailing_ok or text == ""}
+    return {"out": lines, "end": end, "closed": fd.closed_by_writer, "reread": reread, "nl": trailing_ok or text == "",
+            "header_kept": header_kept}
 
 
 def comparable(obs):
@@ -361,6 +447,8 @@ def oracle(case, obs):
         return ["writer-failed: %r" % (obs["end"],)]
     if not obs["closed"]:
         out.append("handle-not-closed:")
+    if not obs.get("header_kept", True):
+        out.append("writer-header-is-not-the-header-given:")
     if not obs["nl"]:
         out.append("last-line-unterminated:")
     lines = obs["out"]
@@ -410,7 +498,8 @@ def classify(case, obs):
     order = case["declared"][0]
     o = {"Coordinate": "C", "BarcodesAndCoordinate": "B"}.get(order, "nosort")
     return "%s/%s/%s/sort=%s%s/%s/contigs=%s/%s" % (
-        case["stream"], "typed" if case["typed"] else "untyped", "api" if "api" in case["hdr"] else "lines",
+        case["stream"], "typed" if case["typed"] else "untyped",
+        ("api-" + case["hdr"]["api"].get("via", "defaults") + ("-fai" if case["hdr"]["api"].get("fai") else "")) if "api" in case["hdr"] else "lines",
         "on" if case["sort"] else "off", (("/cap=%d" % case["cap"]) if case.get("cap") else "")
         + ("/reuse" if case.get("reuse") else "") + (("/" + case["edit_first"]) if case.get("edit_first") else ""), o, "yes" if case["declared"][1] else "no",
         "ok" if obs["end"] is None else "raised")
